@@ -15,8 +15,14 @@ import Nstd.Codec.Spec
     hex <bytes>            fromHex -> `hex <bytes of the text>`
     b64 <bytes>            fromBase64 -> `b64 <bytes>`
     b64pre <bytes> <k>     all k-symbol suffixes (k <= 3) over the 68-symbol set -> `b64pre <count> <digest>`
-    fi32|fu32|fi64|fu64 <hex two's complement>   from*/to* round trip -> `<op> <text> <value back, hex>`
-    pi32|pu32|pi64|pu64 <bytes of the text>      to* of arbitrary text -> `<op> <value, hex>`
+    fi32|fu32|fi64|fu64 <hex two's complement>   from*/to* round trip -> `<op> <text> <member to*, hex> <static to*, hex>`
+    pi32|pu32|pi64|pu64 <bytes of the text>      to* of arbitrary text -> `<op> <member, hex> <static, hex>`
+    lcs <fn> <bytes>       the libc DEFINITION of atoi|atol|atoll|strtol|strtoul|strtoll|strtoull on the C string -> `lcs <hex>`
+    lcf <d|u|lld|llu> <hex64> <cap>   the libc DEFINITION of snprintf(buf, cap, "%<conv>", v) -> `lcf <stored bytes> <return value>`
+    cls <byte>             isSpace + the eight ctype wrappers + toLowerCase/toUpperCase -> `cls <9 flags> <lower> <upper>`
+    fd <hex64>             fromDouble of the double with that bit pattern, toDouble of the text -> `fd <text> <bits> <first try?>`
+    pd <bytes>             toDouble (member, static) of arbitrary text -> `pd <bits> <bits>` (strtodRef below: executable
+                           correctly rounding strtod, tested against libc, no theorem)
   A modelled out-of-range access prints `OOB`.
   Spec lines (answered by this driver only; the check compares them with Python, so that the
   specifications the theorems are stated against are themselves tested):
@@ -119,6 +125,100 @@ def asciiStr (bs : List Nat) : String := String.ofList (bs.map Char.ofNat)
 def toSigned (bits : Nat) (v : Nat) : Int := if v < 2 ^ (bits - 1) then (v : Int) else (v : Int) - (2 ^ bits : Nat)
 def ofSigned (bits : Nat) (v : Int) : Nat := (v % ((2 ^ bits : Nat) : Int)).toNat
 
+/-! ### doubles: bit patterns, and an executable correctly rounding `strtod` for the decimal / inf / nan forms -/
+
+def dblOfBits (v : Nat) : Dbl :=
+  let neg := v / 2 ^ 63 % 2 == 1
+  let ex : Nat := v / 2 ^ 52 % 2048
+  let fr : Nat := v % 2 ^ 52
+  if ex == 2047 then (if fr == 0 then .inf neg else .nan neg)
+  else if ex == 0 then .fin neg fr (-1074)
+  else .fin neg (fr + 2 ^ 52) ((ex : Int) - 1075)
+
+/-- canonical bit pattern (the `m` of a finite value below 2^53; `e >= -1074`; normalised here) -/
+def bitsOfDbl : Dbl → Nat
+  | .inf neg => (if neg then 2 ^ 63 else 0) + 2047 * 2 ^ 52
+  | .nan neg => (if neg then 2 ^ 63 else 0) + 2047 * 2 ^ 52 + 2 ^ 51
+  | .fin neg m e =>
+    let s := if neg then 2 ^ 63 else 0
+    if m == 0 then s
+    else Id.run do
+      -- normalise: shift m up while m < 2^52 and e > -1074
+      let mut m := m
+      let mut e := e
+      for _ in [0:53] do
+        if m < 2 ^ 52 ∧ e > -1074 then
+          m := m * 2
+          e := e - 1
+      if m < 2 ^ 52 then s + m
+      else if e + 1075 ≥ 2047 then s + 2047 * 2 ^ 52
+      else s + (e + 1075).toNat * 2 ^ 52 + (m - 2 ^ 52)
+
+/-- nearest double (ties to even) of `num / den` (`num, den > 0`) -/
+def roundToDbl (neg : Bool) (num den : Nat) : Dbl :=
+  let e0 : Int := (Nat.log2 num : Int) - (Nat.log2 den : Int) - 53
+  let qd (e : Int) : Nat × Nat := if e ≥ 0 then (num, den * 2 ^ e.toNat) else (num * 2 ^ (-e).toNat, den)
+  let fits (e : Int) : Bool := let p := qd e; p.1 / p.2 < 2 ^ 53
+  let e1 : Int := if fits e0 then e0 else if fits (e0 + 1) then e0 + 1 else e0 + 2
+  let e : Int := if e1 < -1074 then -1074 else e1
+  let p := qd e
+  let m := roundHalfEven p.1 p.2
+  let (m, e) := if m == 2 ^ 53 then (2 ^ 52, e + 1) else (m, e)
+  if e > 971 then .inf neg else .fin neg m e
+
+def lowerAscii (c : Nat) : Nat := if 65 ≤ c ∧ c ≤ 90 then c + 32 else c
+
+def takeDigits : List Nat → List Nat × List Nat
+  | [] => ([], [])
+  | c :: cs => if isDigit c then let r := takeDigits cs; (c :: r.1, r.2) else ([], c :: cs)
+
+def decVal (ds : List Nat) : Nat := ds.foldl (fun a d => a * 10 + (d - 48)) 0
+
+/-- `strtod(s, NULL)` for the decimal form, `inf`/`infinity`, `nan`/`nan(..)`; `none` for the hexadecimal form (not modelled) -/
+def strtodRef (s : List Nat) : Option Dbl :=
+  let r := skipSpace s
+  let (neg, r) := match r with
+    | 45 :: t => (true, t)
+    | 43 :: t => (false, t)
+    | _ => (false, r)
+  let low := r.map lowerAscii
+  let hexStart : Bool := match low.drop 2 with
+    | c :: _ => isDigit c || (97 ≤ c && c ≤ 102) || c == 46
+    | [] => false
+  if low.take 2 == [48, 120] && hexStart then none
+  else if low.take 3 == [105, 110, 102] then some (.inf neg)
+  else if low.take 3 == [110, 97, 110] then some (.nan neg)
+  else
+    let (ip, r1) := takeDigits r
+    let (fp, r2) := match r1 with
+      | 46 :: t => takeDigits t
+      | _ => ([], r1)
+    if ip.isEmpty ∧ fp.isEmpty then some (.fin false 0 0)
+    else
+      let ex : Int := match r2 with
+        | c :: t =>
+          if c == 101 || c == 69 then
+            let (sg, t2) := match t with
+              | 45 :: u => (true, u)
+              | 43 :: u => (false, u)
+              | _ => (false, t)
+            let (eds, _) := takeDigits t2
+            if eds.isEmpty then 0 else (if sg then -((decVal eds : Nat) : Int) else ((decVal eds : Nat) : Int))
+          else 0
+        | [] => 0
+      let d := decVal (ip ++ fp)
+      let p : Int := ex - (fp.length : Int)
+      if d == 0 then some (.fin neg 0 0)
+      else if p > 400 then some (.inf neg)
+      else if p + ((ip ++ fp).length : Int) < -400 then some (.fin neg 0 0)
+      else if p ≥ 0 then some (roundToDbl neg (d * 10 ^ p.toNat) 1)
+      else some (roundToDbl neg d (10 ^ (-p).toNat))
+
+def showDbl (r : Option Dbl) : String :=
+  match r with
+  | some d => hexN 16 (bitsOfDbl d)
+  | none => "unmodelled-hex-float"
+
 def parseCps (s : String) : Option (List Nat) :=
   if s == "-" then some [] else (s.splitOn ",").mapM fun t => do
     let v ← t.toNat?
@@ -169,38 +269,87 @@ def stepLine (st : Unit) (ws : List String) : Unit × String :=
   | ["fi32", x] =>
     match hexVal? x with
     | some v => if x.length == 8 then
-        let t := fromInt (toSigned 32 v); s!"fi32 {asciiStr t} {hexN 8 (ofSigned 32 (toInt t))}" else "bad-op"
+        let t := fromInt (toSigned 32 v); s!"fi32 {asciiStr t} {hexN 8 (ofSigned 32 (toInt t))} {hexN 8 (ofSigned 32 (toIntS t))}" else "bad-op"
     | none => "bad-op"
   | ["fu32", x] =>
     match hexVal? x with
     | some v => if x.length == 8 then
-        let t := fromUInt v; s!"fu32 {asciiStr t} {hexN 8 (toUInt t)}" else "bad-op"
+        let t := fromUInt v; s!"fu32 {asciiStr t} {hexN 8 (toUInt t)} {hexN 8 (toUIntS t)}" else "bad-op"
     | none => "bad-op"
   | ["fi64", x] =>
     match hexVal? x with
     | some v => if x.length == 16 then
-        let t := fromInt64 (toSigned 64 v); s!"fi64 {asciiStr t} {hexN 16 (ofSigned 64 (toInt64 t))}" else "bad-op"
+        let t := fromInt64 (toSigned 64 v); s!"fi64 {asciiStr t} {hexN 16 (ofSigned 64 (toInt64 t))} {hexN 16 (ofSigned 64 (toInt64S t))}" else "bad-op"
     | none => "bad-op"
   | ["fu64", x] =>
     match hexVal? x with
     | some v => if x.length == 16 then
-        let t := fromUInt64 v; s!"fu64 {asciiStr t} {hexN 16 (toUInt64 t)}" else "bad-op"
+        let t := fromUInt64 v; s!"fu64 {asciiStr t} {hexN 16 (toUInt64 t)} {hexN 16 (toUInt64S t)}" else "bad-op"
     | none => "bad-op"
   | ["pi32", d] =>
     match Nstd.Common.fromHex d with
-    | some bs => s!"pi32 {hexN 8 (ofSigned 32 (toInt bs))}"
+    | some bs => s!"pi32 {hexN 8 (ofSigned 32 (toInt bs))} {hexN 8 (ofSigned 32 (toIntS bs))}"
     | none => "bad-op"
   | ["pu32", d] =>
     match Nstd.Common.fromHex d with
-    | some bs => s!"pu32 {hexN 8 (toUInt bs)}"
+    | some bs => s!"pu32 {hexN 8 (toUInt bs)} {hexN 8 (toUIntS bs)}"
     | none => "bad-op"
   | ["pi64", d] =>
     match Nstd.Common.fromHex d with
-    | some bs => s!"pi64 {hexN 16 (ofSigned 64 (toInt64 bs))}"
+    | some bs => s!"pi64 {hexN 16 (ofSigned 64 (toInt64 bs))} {hexN 16 (ofSigned 64 (toInt64S bs))}"
     | none => "bad-op"
   | ["pu64", d] =>
     match Nstd.Common.fromHex d with
-    | some bs => s!"pu64 {hexN 16 (toUInt64 bs)}"
+    | some bs => s!"pu64 {hexN 16 (toUInt64 bs)} {hexN 16 (toUInt64S bs)}"
+    | none => "bad-op"
+  | ["lcs", fn, d] =>
+    match Nstd.Common.fromHex d with
+    | some bs =>
+      let t := cstr bs
+      if fn == "atoi" then s!"lcs {hexN 8 (ofSigned 32 (atoi t))}"
+      else if fn == "atol" || fn == "strtol" then s!"lcs {hexN 16 (ofSigned 64 (strtol t))}"
+      else if fn == "atoll" then s!"lcs {hexN 16 (ofSigned 64 (atoll t))}"
+      else if fn == "strtoll" then s!"lcs {hexN 16 (ofSigned 64 (strtoll t))}"
+      else if fn == "strtoul" then s!"lcs {hexN 16 (strtoul t)}"
+      else if fn == "strtoull" then s!"lcs {hexN 16 (strtoull t)}"
+      else "bad-op"
+    | none => "bad-op"
+  | ["lcf", conv, x, cap] =>
+    match hexVal? x, cap.toNat? with
+    | some v, some cap =>
+      if x.length != 16 || cap > 64 then "bad-op"
+      else
+        let text? : Option (List Nat) :=
+          if conv == "d" then some (fmtSigned (toSigned 32 (v % 2 ^ 32)))
+          else if conv == "u" then some (decDigits (v % 2 ^ 32))
+          else if conv == "lld" then some (fmtSigned (toSigned 64 v))
+          else if conv == "llu" then some (decDigits v)
+          else none
+        match text? with
+        | some text => let r := vsnprintf cap text; s!"lcf {toHex r.1} {r.2}"
+        | none => "bad-op"
+    | _, _ => "bad-op"
+  | ["cls", b] =>
+    match b.toNat? with
+    | some b =>
+      if b < 256 then
+        let fl := [strIsSpace b, cIsAlnum b, cIsAlpha b, cIsDigit b, cIsLower b, cIsPrint b, cIsPunct b, cIsUpper b, cIsXDigit b]
+        showRes ((toLowerCase b).bind fun l => (toUpperCase b).bind fun u => .ok (l, u)) fun (l, u) =>
+          s!"cls {String.join (fl.map b2s)} {l} {u}"
+      else "bad-op"
+    | none => "bad-op"
+  | ["fd", x] =>
+    match hexVal? x with
+    | some v =>
+      if x.length == 16 then
+        let d := dblOfBits v
+        let t := fromDouble d
+        s!"fd {asciiStr t} {showDbl (toDouble (fun s => (strtodRef s).getD (.nan false)) t |> some)} {b2s (printfFirstTry printfCap (fmtF d))}"
+      else "bad-op"
+    | none => "bad-op"
+  | ["pd", d] =>
+    match Nstd.Common.fromHex d with
+    | some bs => s!"pd {showDbl (strtodRef (cstr bs))} {showDbl (strtodRef (cstr bs))}"
     | none => "bad-op"
   | ["spec-utf8", a, n] =>
     match a.toNat?, n.toNat? with
